@@ -5,7 +5,6 @@ import NA.Core.IOUtil
 (two lower-case hex digits per byte; byte `b` becomes `Char.ofNat b`).
 
   pass  S            -> hex (maskPass S)
-  api   S            -> hex (maskApi S)
   key   S            -> hex (maskKey S)
   esc   S            -> hex (queryEscape S)
   unesc S            -> hex (queryUnescape S) | ERR
@@ -13,7 +12,7 @@ import NA.Core.IOUtil
   dolog S            -> hex (doLog S)
   enc   K1 V1 K2 V2… -> hex (valuesEncode [(K1,V1),…])
   keygen ADDR USER PASS KIND A B  -> model of getAPIKey, see `NA.Mask.keygen`
-  prefixget PREFIX URI KIND A B   -> model of httpPrefixGetLog
+  prefixget LOGPREFIX PREFIX URI KIND A B -> model of httpPrefixGetLog
   panos / nsx / ssh / doapprove   -> whole-run sink models, see `NA.Mask` in MaskSinks.lean
 -/
 namespace NA.Drv.C17
@@ -194,7 +193,6 @@ def answer (line : String) : String :=
     | some as =>
       match cmd, as with
       | "pass", [s] => hex (maskPass s)
-      | "api", [s] => hex (maskApi s)
       | "key", [s] => hex (maskKey s)
       | "esc", [s] => hex (queryEscape s)
       | "unesc", [s] => match queryUnescape s with | some r => hex r | none => "ERR"
@@ -207,10 +205,10 @@ def answer (line : String) : String :=
           let o := keygen addr user pass r
           s!"log={hexLines o.1}\terr={match o.2 with | some e => hex e | none => "none"}"
         | none => "bad-input"
-      | "prefixget", [pre, uri, kind, a, b] =>
+      | "prefixget", [logPre, pre, uri, kind, a, b] =>
         match parseReply (String.ofList kind) a b with
         | some r =>
-          let o := prefixGet pre uri r
+          let o := prefixGet logPre pre uri r
           s!"log={hexLines o.1}\terr={match o.2 with | some e => hex e | none => "none"}"
         | none => "bad-input"
       | "nsxlogin", [pre, user, pass, status] => hexLines (nsxLoginLog pre user pass status)
